@@ -242,7 +242,7 @@ def answerExec (shared v cmds t : String) : String :=
     let (eqv, mm) := match parseVsys t with
       | some tv => (b2s (equivSem w tv), mismatch w tv w.rules tv.rules)
       | none => ("-", "-")
-    s!"accepted={k} err={(e.map enc).getD "-"} equiv={eqv} mismatch={mm} wf={b2s (wellFormed sh w)}\t{showVsys w}"
+    s!"accepted={k} err={(e.map enc).getD "-"} equiv={eqv} mismatch={mm} wf={b2s (wellFormed sh w)} unref={",".intercalate ((unreferenced w).map enc)}\t{showVsys w}"
 
 /-! ### PREDICT: what the model of the unchanged planner does on a pair
 
